@@ -45,7 +45,11 @@ theorem findSpanLinear_unique (p : ℕ) (U : ℕ → K) (n : ℕ) (u : K) (hpn :
     suffices) for every degree, non-decreasing knot function and parameter of the domain, provided the
     tolerance shortcut at the domain end only fires for parameters of the last span.
     The model's start index `(low+high+1)/2` is the code's `int(round((low+high)/2 + tol))` only for
-    `0 ≤ tol < 1/2`, hence the hypothesis `2 * tol < 1` (the default is 1e-5). -/
+    `0 < tol < 1/2`, hence the hypothesis `2 * tol < 1` (the default is 1e-5).  At `tol = 0` (admitted by `htol`) and an
+    odd `low + high` the code starts one index lower – Python rounds `x.5` to the EVEN integer, `int(round(2.5)) = 2`,
+    the model starts at 3 – and reaches the same span by another path of the bisection: the equality with the linear
+    search still holds there for the model, for the code it is the statement of its own bisection only for `0 < tol`
+    (the C17 twins carry `0 < tol`). -/
 theorem findSpanBin_eq_linear (p : ℕ) (U : ℕ → K) (n : ℕ) (u tol : K) (hpn : p + 1 ≤ n)
     (hm : Monotone U) (hlo : U p ≤ u) (hhi : u ≤ U n) (htol : 0 ≤ tol) (_htol2 : 2 * tol < 1)
     (hend : absK (U n - u) ≤ tol → U (n - 1) ≤ u) :
@@ -467,7 +471,8 @@ theorem findSpanLinearR_unique (p : ℕ) (U : ℕ → K) (n : ℕ) (hpn : p + 1 
 /-- **Repaired binary search = repaired linear search** (termination included) on the closed domain of every sorted knot
     function, provided the tolerance shortcut at the domain end only fires for parameters of the last NON-EMPTY span
     (the span the search returns at `U_n`; for a non-empty last span this is the hypothesis of `findSpanBin_eq_linear`,
-    violated by F-17b).  `2 * tol < 1` as there (start index of the bisection). -/
+    violated by F-17b).  `2 * tol < 1` as there (start index of the bisection = the code's for `0 < tol < 1/2`; at `tol = 0`
+    the code's banker's rounding starts one index lower, see `findSpanBin_eq_linear`). -/
 theorem findSpanBinR_eq_linearR (p : ℕ) (U : ℕ → K) (n : ℕ) (u tol : K) (hpn : p + 1 ≤ n)
     (hm : Monotone U) (hlo : U p ≤ u) (hhi : u ≤ U n) (htol : 0 ≤ tol) (_htol2 : 2 * tol < 1)
     (hend : absK (U n - u) ≤ tol → U (findSpanLinearR p U n (U n)) ≤ u) :
